@@ -62,7 +62,7 @@ pub fn replay(args: &Args) {
                 let cutoff = (base + Duration::from_secs(cut)).unwrap();
                 let allowed: Vec<u64> = c["allowed"].as_array().unwrap().iter().map(|v| v.as_u64().unwrap()).collect();
                 let prevs: Vec<u64> = c["prevs"].as_array().unwrap().iter().map(|v| v.as_u64().unwrap()).collect();
-                let mut check = |label: &str, prev: u64, mode: u8, got: Result<Option<Option<u64>>, String>, sum: &mut Summary| {
+                let check = |label: &str, prev: u64, mode: u8, got: Result<Option<Option<u64>>, String>, sum: &mut Summary| {
                     let key = if runs.len() >= 2 { Some(format!("{s}/{cut}/{prev}/{mode}/{label}")) } else { None };
                     sum.case("C36", key, || json!({"case": c, "prev": prev, "mode": mode, "cache": label}));
                     match got {
